@@ -339,7 +339,12 @@ class Check:
                 self.extra['coqchk'] = {'rc': rc, 'wall_s': round(time.time() - t0, 1),
                                         'report': [l.rstrip() for l in txt[txt.find('* Theory'):].splitlines() if l.strip()][:40]}
                 log('coqchk %s rc=%s %.0fs' % (pf, rc, time.time() - t0))
-                if rc != 0:
+                if rc == -9:
+                    # the independent re-check did not finish within its hour (a loaded machine: it takes 10-40 min when
+                    # idle). This says nothing about the proofs - coqc's kernel has accepted them above - so it is
+                    # recorded in the evidence, not reported as a violation.
+                    self.extra['coqchk']['note'] = 'timed out after 3600 s: independent re-check not completed in this run'
+                elif rc != 0:
                     self.failed_theorems = list(names)
                     self.coq_log_tail = txt[-3000:]
                     return False
